@@ -205,6 +205,21 @@ func checkRobust(c Case) error {
 			cuts = append(cuts, int((h>>33)%uint64(len(orig))))
 		}
 	}
+	// the same bytes in a buffer the caller keeps for input after input (a reader that sizes its
+	// target with DecodeViewBox and then decodes): the same verdict and calls as from a slice of
+	// their own, whatever the buffer held before
+	if n := len(orig); n <= len(reused) {
+		copy(reused[:n], orig)
+		_, errVB3 := decode.DecodeViewBox(reused[:n])
+		rec3 := &ops.Recorder{}
+		err3 := decode.Decode(rec3, reused[:n])
+		if (errVB3 == nil) != p.MetaOK {
+			return harness.Violatef("c02/reused-buffer", "DecodeViewBox on the same bytes in a buffer that held another input before: err=%v, the metadata is valid=%v", errVB3, p.MetaOK)
+		}
+		if (err3 == nil) != (errRec == nil) || ops.DiffOps(rec3.Ops, rec.Ops) != "" {
+			return harness.Violatef("c02/reused-buffer", "Decode on the same bytes in a buffer that held another input before: err=%v and %d calls; from a slice of their own err=%v and %d calls", err3, len(rec3.Ops), errRec, len(rec.Ops))
+		}
+	}
 	for _, k := range cuts {
 		got, _ := decodeOps(orig[:k:k])
 		if len(got) > len(rec.Ops) {
@@ -216,6 +231,9 @@ func checkRobust(c Case) error {
 	}
 	return nil
 }
+
+// reused: one buffer for every input of the process that fits.
+var reused [4096]byte
 
 func firstKind(o []ops.Op) string {
 	if len(o) == 0 {
